@@ -195,11 +195,14 @@ def literal_constraints(S, iv, atom, pol):
     return None
 
 
-def pc_regions(S, pc, leaf_types=None, invariants=None):
+def pc_regions(S, pc, leaf_types=None, invariants=None, weaken=False):
     """Path predicate (engine BDD) -> list of conjunctions of linear constraints (Lin <= 0); None if
     some literal is not linear."""
     out = []
-    for cube in S.eng.bdd.cubes(pc):
+    cubes = S.eng.bdd.cubes(pc, limit=256)
+    if cubes is None:
+        return None
+    for cube in cubes:
         iv = Intervals(S, leaf_types, invariants)
         node = 1
         for a, p in cube:
@@ -210,6 +213,9 @@ def pc_regions(S, pc, leaf_types=None, invariants=None):
         for a, p in cube:
             lc = literal_constraints(S, iv, a, p)
             if lc is None:
+                if weaken:
+                    # entailment use only: dropping a premise is sound (the region only grows)
+                    continue
                 return None
             alts = [x + y for x in alts for y in lc]
         out.extend(alts)
@@ -225,7 +231,7 @@ def entails_range(S, pc, term, lo, hi, leaf_types=None, invariants=None):
     """Does the path predicate `pc` (with the variables' declared ranges / invariants as domain) force
     lo <= term <= hi?  Decided relationally in the octagon domain.  True / False / None (undecided)."""
     from .octagon import conj_empty
-    regs = pc_regions(S, pc, leaf_types, invariants)
+    regs = pc_regions(S, pc, leaf_types, invariants, weaken=True)
     if regs is None:
         return None
     for cube_regs in regs:
@@ -233,7 +239,27 @@ def entails_range(S, pc, term, lo, hi, leaf_types=None, invariants=None):
         iv.assume(pc)
         l = exact_int_loose(S, iv, term)
         if l is None:
-            return None
+            # same-width reinterpreting cast around an exact value (x as i64 with x provably small)
+            t2 = term
+            while t2[0] == "icast":
+                t2 = t2[1]
+            l2 = exact_int_loose(S, iv, t2) if t2 is not term else None
+            if l2 is None:
+                return None
+            # the casts are value-preserving iff the inner value fits every intermediate type: ask for that first
+            from .sym import INT_RANGES as _IR
+            chain = []
+            t3 = term
+            while t3[0] == "icast":
+                chain.append(t3[3])
+                t3 = t3[1]
+            need_lo = max(_IR.get(c, FULL)[0] for c in chain)
+            need_hi = min(_IR.get(c, FULL)[1] for c in chain)
+            if not (lo >= need_lo and hi <= need_hi):
+                fits = entails_range(S, pc, t2, need_lo, need_hi, leaf_types, invariants)
+                if not fits:
+                    return None
+            l = l2
         cons = to_oct(cube_regs)
         vars_ = set(l.c)
         for lin, _c in cons:
